@@ -515,6 +515,8 @@ def parseLeader(raw, eols=(CRLF, LF), kind="leader header line", headers=None):
         del raw[:index] # remove used bytes
         if line:
             line = line.decode('iso-8859-1')  # convert to unicode string
+            if ': ' not in line:
+                raise HTTPException("Invalid {0} '{1}'".format(kind, line))
             key, value = line.split(': ', 1)
             headers[key] = value
 
